@@ -60,8 +60,8 @@ class OrderEval:
         for cname in ("CodePoint", "CodeRange"):
             c = repo.cls(ORIGIN, cname)
             for st in c.node.body:
-                if isinstance(st, ast.FunctionDef):
-                    self.methods[(cname, st.name)] = st
+                if isinstance(st, ast.FunctionDef) and not repo.is_new_helper(c.mod, f"{cname}.{st.name}"):
+                    self.methods[(cname, st.name)] = repo.func(ORIGIN, f"{cname}.{st.name}").node  # normalised (extracted guards inlined)
         self.calls = 0
 
     # ------------------------------------------------------------------ methods
